@@ -131,7 +131,7 @@ def cases(tier, seed):
             ents = "u16:16:1111:t|u32:18:00000006:f|u16:21:0006:c0|u16:26:0200:r0100-0300"
             ops = ["rt.table %d 16:8:rw:M|%s %s" % (be, second, ents), "rt.init"]
             for _ in range(40 if tier == "quick" else 200):
-                ops += rnd.choice([["rt.poke 1 0 ffff", "rt.sanitise"], ["rt.sanitise"], ["rt.set 1 u32 00000007"], ["rt.bset 3 u16 8000"], []])
+                ops += rnd.choice([["rt.poke 1 0 ffff", "rt.sanitise"], ["rt.sanitise"], ["rt.userinit %d" % rnd.randint(0, 4)], ["rt.set 1 u32 00000007"], ["rt.bset 3 u16 8000"], []])
                 a = rnd.randint(15, 23)
                 ops.append("rt.bwrite %d %s" % (a, words(rnd, rnd.randint(1, 5), rnd.choice(["zero", "small", "rnd"]))))
             cs.append(Case("interf-%d-%s" % (be, second[-3:]), ops, ("interference",)))
